@@ -434,12 +434,12 @@ class _SocksMachine(object):
     sent_request.upon(
         reply_ipv4,
         enter=relaying,
-        outputs=[_make_connection],
+        outputs=[_make_connection, _relay_data],
     )
     sent_request.upon(
         reply_ipv6,
         enter=relaying,
-        outputs=[_make_connection],
+        outputs=[_make_connection, _relay_data],
     )
     # XXX this isn't always a _domain_name_resolved -- if we're a
     # req_type CONNECT then it's _make_connection_domain ...
